@@ -12,12 +12,13 @@
    R  A + the first positional argument of a call hoisted into a temporary when it is itself a call
    M  A + an unrelated method added to every class and an unrelated function to every module
    F  A + every plain f-string written as a concatenation: f"results_{e}" -> "results_" + str(e)
+   X  A + every plain method split into a forwarding wrapper and an implementation: def m(self, a): return self._m_impl(a)
    DEHGKOCTRMF  all of them together
 Every check must stay silent (exit 0) on each of them."""
 import ast
 import os
 
-KINDS = ["A", "B", "C", "D", "E", "H", "G", "K", "O", "T", "R", "M", "F", "DEHGKOCTRMF"]
+KINDS = ["A", "B", "C", "D", "E", "H", "G", "K", "O", "T", "R", "M", "F", "X", "DEHGKOCTRMF"]
 
 
 class Renamer(ast.NodeTransformer):
@@ -259,7 +260,37 @@ class FStringConcat(ast.NodeTransformer):
         return out
 
 
-PASSES = {"F": lambda: FStringConcat(), "B": lambda: Renamer(), "D": lambda: DeepRenamer(), "C": lambda: Logger(), "E": lambda: MulSwap(), "H": lambda: IfInvert(),
+class SplitMethods(ast.NodeTransformer):
+    """def m(self, a, b=1): BODY   ->   def m(self, a, b=1): return self._m_impl(a, b)  +  def _m_impl(self, a, b=1): BODY
+    for plain instance methods (no decorators, no *args / **kwargs / keyword-only parameters, not a dunder, no nested use of the method's own
+    name, no super() without arguments - which needs the defining method's cell)."""
+
+    def visit_ClassDef(self, node):
+        self.generic_visit(node)
+        body = []
+        for st in node.body:
+            body.append(st)
+            if not isinstance(st, ast.FunctionDef) or st.decorator_list or st.name.startswith("__"):
+                continue
+            a = st.args
+            if a.vararg or a.kwarg or a.kwonlyargs or a.posonlyargs or not a.args or a.args[0].arg != "self":
+                continue
+            if any(isinstance(n, ast.Name) and n.id == "super" for n in ast.walk(st)):
+                continue
+            if any(isinstance(n, (ast.Yield, ast.YieldFrom)) for n in ast.walk(st)):
+                continue
+            impl = ast.FunctionDef(name=f"{st.name}_impl_", args=a, body=st.body, decorator_list=[], returns=None, type_comment=None, type_params=[])
+            call = ast.Call(func=ast.Attribute(value=ast.Name(id="self", ctx=ast.Load()), attr=impl.name, ctx=ast.Load()),
+                            args=[ast.Name(id=x.arg, ctx=ast.Load()) for x in a.args[1:]], keywords=[])
+            doc = [st.body[0]] if (st.body and isinstance(st.body[0], ast.Expr) and isinstance(st.body[0].value, ast.Constant) and isinstance(st.body[0].value.value, str)) else []
+            wrapper = ast.FunctionDef(name=st.name, args=a, body=doc + [ast.Return(value=call)], decorator_list=[], returns=st.returns, type_comment=None, type_params=[])
+            body[-1] = wrapper
+            body.append(impl)
+        node.body = body
+        return node
+
+
+PASSES = {"X": lambda: SplitMethods(), "F": lambda: FStringConcat(), "B": lambda: Renamer(), "D": lambda: DeepRenamer(), "C": lambda: Logger(), "E": lambda: MulSwap(), "H": lambda: IfInvert(),
           "G": lambda: CmpFlip(), "K": lambda: RetTemp(), "O": lambda: MethodReverse(), "T": lambda: KwReverse(), "R": lambda: HoistArg(), "M": lambda: AddMethod()}
 
 
